@@ -121,6 +121,9 @@ let eval (op : string) (args : sx list) : sx list =
   | "table_show", [L ff] -> sx_of_out (fun t -> [sx_of_bytes t]) (table_show default_registry (bytes_of_sx (A "x2020202020")) (z_of_int 21) (List.map feature_of_sx ff))
   | "wrap_space", [s; n] -> [A "ok"; sx_of_bytes (wrap_space (bytes_of_sx s) (nat_of_int (int_of_z (z_of_sx n))))]
   | "flatfile_split", [s] -> [A "ok"; L (List.map sx_of_bytes (flatfile_split (bytes_of_sx s)))]
+  | "refs_slice", [mol; st; en; L refs] ->
+    sx_of_out (fun rs -> [L (List.map sx_of_ref rs)])
+      (refs_slice (bytes_of_sx mol) (z_of_sx st) (z_of_sx en) (List.map ref_of_sx refs))
   | "alias", _ | "alias_seq", _ -> [A "same"] (* the frame theorems: nothing the caller holds changes *)
   | _ -> [A "unknown-op"]
 
